@@ -576,7 +576,20 @@ static void truth(const Case& C, const std::vector<uint8_t>& file, Truth& t) {
             if (!referenced_by_pointer.count(c.name)) want_ptr_only.insert(c.name);
         }
         if (got != want) {
+            // with a Cell object outside the library that carries the name of a library cell, a Cell-typed reference to it is
+            // written as a PLACEMENT of the library cell while top_level compares pointers found under the NAME: the last
+            // Cell-typed reference of that name decides (name-keyed map, the recorded C16 behaviour)
+            std::map<std::string, long> last;   // written name -> object (library index, or -1 - outside index)
+            for (auto& c : L.cells)
+                for (auto& r : c.refs) {
+                    if (r.how == 0) last[r.target] = C.lib_index(r.target);
+                    if (r.how == 3) last[C.wname(r.target)] = -1 - C.out_index(r.target);
+                }
+            std::multiset<std::string> want_keyed;
+            for (size_t i = 0; i < L.cells.size(); i++)
+                if (!last.count(L.cells[i].name) || last[L.cells[i].name] != (long)i) want_keyed.insert(L.cells[i].name);
             if (got == want_ptr_only) t.fail("write_oas:top-cell-ignores-name-references", "S_TOP_CELL lists a cell that a PLACEMENT by name designates");
+            else if (!C.twin.empty() && got == want_keyed) t.fail("write_oas:top-cell-outside-cell-of-same-name", "S_TOP_CELL lists a cell that a PLACEMENT designates through a same-named Cell object outside the library");
             else t.fail("oas-std-truth", "S_TOP_CELL lists " + std::to_string(got.size()) + " cells, " + std::to_string(want.size()) + " are unreferenced");
         }
     }
